@@ -211,6 +211,14 @@ pub fn c05(args: &Args) -> Report {
         p.kinds = vec![1, 1, 7, 0, 10002, 30023, 1059, 5];
         p.times = vec![100, 100, 101, 102, 102, 102, 255, 256, 65535, 65536, (1 << 32) - 1, 1 << 32];
         p.content_lens = vec![0, 5];
+        if i % 2 == 1 {
+            // dense variant: few letters and values, many events per (letter, value) and per author
+            p.letters = vec!["t", "e"];
+            p.tvals = vec!["a".into(), "b".into(), "c".into(), long_d(190, "q1"), long_d(190, "q2")];
+            p.kinds = vec![1, 1, 1, 7, 7, 30023];
+            p.times = vec![100, 101, 102, 103, 104, 105, 106, 107, 108, 109, 110, 255, 256, 65536];
+            p.max_extra_tags = 2;
+        }
         let mut mix = Mix::base();
         mix.store_new = 80;
         mix.reopen = 1;
@@ -224,7 +232,9 @@ pub fn c05(args: &Args) -> Report {
             one_step(&mut eng, &mut rng, &p, &mix);
             if checkpoints.contains(&s) && !eng.aborted {
                 for q in 0..per_state / 3 {
-                    let f = gen_filter(&mut rng, &p, &eng, q);
+                    // alternate between free-form filters and filters derived from what is stored
+                    // (several values / authors / kinds with matches each, limit cutting in the middle)
+                    let f = if q % 2 == 0 { gen_filter(&mut rng, &p, &eng, q / 2) } else { gen_filter_from_state(&mut rng, &eng, q / 2) };
                     let screen_mode = *rng.pick(&[0u8, 0, 0, 1, 1, 4, 2, 3]);
                     // scraping allowances in all combinations
                     let allow = match rng.below(5) {
